@@ -52,8 +52,9 @@ def run(res, tier, rng):
                     w = su.copy(); w.port = p; variants.append(("port " + p, w.render()))
                 import re as _re
                 named = su.host.count(".") >= 1 and not _re.fullmatch(r"\[.*\]|[0-9.]+", su.host)   # a language label only goes when two labels remain after it
-                for _ in range(3 if named else 0):
-                    a, b = rng.choice(codes), rng.choice(codes)
+                fixed_codes = ["TV", "MY", "ID", "FM", "ME", "IT", "IO"]
+                for k_ in range(4 if named else 0):
+                    a, b = (rng.choice(codes), rng.choice(codes)) if k_ < 3 else (rng.choice(fixed_codes), rng.choice(codes))
                     for lab in (a.lower(), a, a.lower() + "-" + b, a + "-" + b.lower()):
                         w = su.copy(); w.host = lab + "." + su.host; variants.append(("language label " + lab, w.render()))
                 items = su.query.split("&") if su.query else []
